@@ -102,6 +102,56 @@ def skeletons(tier):
                     yield dict(id=sid, prefix=pre, blocks=[dict(spell=sp1, var="ii", body=b1, ctr=0), dict(spell=sp2, var="ii" if same else "jj", body=b2, ctr=1)])
 
 
+C_WORDS = set("auto break case char const continue default do double else enum extern float for goto if inline int long register restrict return short signed sizeof static struct switch typedef union unsigned void volatile while "
+              "get_global_id get_local_id get_group_id blockDim blockIdx threadIdx gridDim x y z __global __kernel __global__ __device__ __restrict__ pragma omp parallel simd ivdep".split())
+CAPTURE_FIXED = ["%s_end", "%s_start", "%s_max", "%s_lim", "n_%s", "end", "limit", "tid", "gid", "idx", "i", "nn", "autovectorized"]
+
+
+def identifiers(text):
+    text = re.sub(r"/\*.*?\*/", " ", text, flags=re.S)
+    text = re.sub(r"//[^\n]*", " ", text)
+    text = re.sub(r'"(?:\\.|[^"\\])*"', " ", text)
+    return set(re.findall(r"[A-Za-z_]\w*", text))
+
+
+def capture_skeletons(sks, incdir):
+    """adversarial skeletons: (a) one whose kernel declares, and reads inside its blocks, locals with the names a rewriter would
+    plausibly pick for helpers of its own (derived from the loop variables); (b) for every identifier that the specialised
+    text of a skeleton holds on some target and the source does not (the specialiser's own helpers; target built-ins and
+    keywords aside), a copy of that skeleton declaring and reading a local of that very name"""
+    from xobjects.specialize_source import specialize_source
+
+    out = []
+    base = next((sk for sk in sks if len(sk["blocks"]) == 2 and not any(p[0] in ("include", "include2") for p in sk["prefix"])), None) or next((sk for sk in sks if not any(p[0] in ("include", "include2") for p in sk["prefix"])), None)
+    if base is not None:
+        vs = [b["var"] for b in base["blocks"]]
+        names = []
+        for pat in CAPTURE_FIXED:
+            for v in vs if "%s" in pat else [None]:
+                nm = pat % v if v else pat
+                if nm not in names:
+                    names.append(nm)
+        out.append(dict(base, id=base["id"] + 500000, capture=names))
+    seen = set()
+    for sk in sks:
+        if any(p[0] in ("include", "include2") for p in sk["prefix"]):
+            continue
+        lines, _ = render(sk, incdir)
+        src = "\n".join(lines)
+        have = identifiers(src)
+        new = set()
+        for tg in ("cpu_serial", "cpu_openmp", "opencl", "cuda"):
+            try:
+                new |= identifiers(specialize_source(src, specialize_for=tg)) - have - C_WORDS
+            except Exception:
+                pass
+        new = tuple(sorted(new))
+        if new and (new, len(sk["blocks"])) not in seen and len(seen) < 6:
+            seen.add((new, len(sk["blocks"])))
+            out.append(dict(sk, id=sk["id"] + 600000 + len(seen), capture=list(new)))
+    return out
+
+
 def render(sk, incdir, variant=0):
     """source text of one skeleton + what it must do.  Returns (lines, expect).
     variant 1 = the same skeleton whose included file (same NAME, another folder) has another content"""
@@ -141,6 +191,11 @@ def render(sk, incdir, variant=0):
             lines.append("//include_file %s for_context %s" % (fn2, xs(p[1])))
             exp["include2"] = p[1]
     lines.append("/*gpukern*/ void %s(const int n, /*gpuglmem*/ int* c0, /*gpuglmem*/ int* c1, /*gpuglmem*/ int* flags){" % name)
+    cap = list(sk.get("capture") or [])
+    for X in cap:
+        # locals of the kernel, declared before the blocks and read inside them: a name is the user's wherever the
+        # specialised text puts its own helpers
+        lines.append("  int %s = 41;" % X)
     nmark = 0
     # every fourth skeleton writes an ordinary remark in front of each annotation of the kernel body (the annotation is then
     # not the first comment of its line; the directive is found wherever it stands in the line)
@@ -153,6 +208,9 @@ def render(sk, incdir, variant=0):
             lines.append("  int %s=0; %s//vectorize_over %s %s" % (v, rk, v, lim))
         else:
             lines.append("  for (int %s=0; %s<%s; %s++){ %s//vectorize_over %s %s" % (v, v, lim, v, rk, v, lim))
+        if cap:
+            lines.append("    c%d[%s] += (%s) ? 1 : 100;" % (b["ctr"], v, " && ".join("%s == 41" % X for X in cap)))
+            exp["counts"][b["ctr"]] += 1
         for st in b["body"]:
             if st[0] == "inc":
                 lines.append("    c%d[%s] += 1;" % (b["ctr"], v))
@@ -384,6 +442,13 @@ def run_shard(sks, tier, seed):
         res.violations.append(common.violation(oracle, failure, f, dict(skeleton=sk, **extra), detail))
 
     try:
+      if len(sks) > 1:
+          # (a replayed case is a single skeleton: it carries its own capture list)
+          capdir = os.path.join(work, "cap")
+          os.makedirs(capdir)
+          extra = capture_skeletons(sks, capdir)
+          res.events["capture-skeletons"] += len(extra)
+          sks = list(sks) + extra
       for variant in (0, 1):
         # variant 1: a second build in the same process of the skeletons that include a file; the included files have
         # the same names, live in another folder and have another content (what a build reads must be what is there now)
